@@ -60,6 +60,11 @@ def cases(tier):
         if n >= 4:
             c["_split"] = 2 * n
         out.append(c)
+    for n in ((3, 4) if q else (3, 4, 5)):
+        c = {"kind": "count", "n": n, "dtype": "int8", "_weight": 8 ** n}
+        if n >= 4:
+            c["_split"] = 2 * n
+        out.append(c)
     for n in range(2, (3 if q else 4) + 1):
         for p in range(1, n + 1):
             c = {"kind": "refine", "n": n, "pos": p, "_weight": 8 ** (n + 1)}
@@ -129,8 +134,13 @@ def periodic_cycles(x):
     return cyc
 
 
-def _hcm(ctx, seq):
-    arr = np.array(seq, dtype=object if ctx.sym else np.float64)
+def _hcm(ctx, seq, dtype=None):
+    if ctx.sym:
+        arr = np.array(seq, dtype=object)
+    elif dtype == "int8":
+        arr = np.array([int(round(float(v))) for v in seq], dtype=np.int8)      # whole-number loads in a narrow integer array
+    else:
+        arr = np.array(seq, dtype=np.float64)
     rec = FKMNonlinearRecorder()
     det = FKMNonlinearDetector(recorder=rec, notch_approximation_law=LinearLaw())
     with warnings.catch_warnings():
@@ -178,12 +188,18 @@ def run(ctx, case):
         ctx.eng.int_mode = True      # all inputs are integers: tolerance comparisons become integer comparisons
     xs = [ctx.int("x%d" % i) for i in range(n)]
     ctx.assume(sym_or(*[xs[i] != xs[0] for i in range(1, n)]))
-    ctx.hint(sym_and(*[sym_and(x <= 8, x >= -8) for x in xs]))
+    if case.get("dtype") == "int8":
+        # narrow integer input: the witnesses get loads whose differences (and products of differences) leave the int8 range;
+        # integer wrap-around is invisible to the object-dtype run and shows in the concrete replay of every path witness
+        ctx.assume(sym_and(*[sym_and(x <= 100, x >= -100) for x in xs]))
+        ctx.hint(sym_and(*[sym_or(x >= 40, x <= -40) for x in xs]))
+    else:
+        ctx.hint(sym_and(*[sym_and(x <= 8, x >= -8) for x in xs]))
     regions = junction_regions(ctx, xs)
     for fid, pred in regions.items():
         if ctx.open_finding("C04-" + fid) and pred:
             ctx.assume(False)
-    rows = _hcm(ctx, xs)
+    rows = _hcm(ctx, xs, case.get("dtype"))
     run2 = [(lo, hi) for lo, hi, closed, ri in rows if ri == 2]
     exp = periodic_cycles(xs)
     ctx.signature((case["kind"], n, [(bool(c), int(ri)) for _lo, _hi, c, ri in rows]), trivial=(len(run2) == 0))
